@@ -301,11 +301,13 @@ def evaluate(ctx, deep):
     nmax = 7 if deep else 5
     for n in range(2, nmax + 1):
         if n <= 3:
-            reps = 8 if deep else 4
+            reps = 10 if deep else 4
         elif n == 4:
-            reps = 4 if deep else 2
+            reps = 6 if deep else 2
         elif n == 5:
-            reps = 3 if deep else 1
+            reps = 4 if deep else 1
+        elif n == 6:
+            reps = 2
         else:
             reps = 1
         for fam in FAMILIES:
